@@ -592,7 +592,7 @@ class Gen:
                     self.drains.setdefault(t, []).append(sid)
                     break
             if t == stopper and t not in self.drains:
-                ops.append("drop" if k.get("only_drop") else r.choice(["stop", "stop", "drop"]))
+                ops.append(r.choice(["drop", "drop", "pdrop"]) if k.get("only_drop") else r.choice(["stop", "stop", "drop"]))
                 if r.random() < 0.3:
                     ops.append(r.choice(["stop", "d.I.%d" % (t * 100 + 99), "gs"]))
             progs.append(ops)
@@ -714,6 +714,10 @@ FAMILIES = {
     # context never waits on its own full queue
     "mw_nested": (dict(policies=ALLPOL, caps=[16], directs=(0, 1), reducers=(1, 2), mws=(1, 2), verdict=0.0,
                        ops={"d": 12, "gs": 1}, max_ops=4, max_threads=3), 0),
+    # engine F: several threads hand tasks and thunks to the pool at the same instant (at most 12
+    # per store: rusty_pool runs up to its core size directly)
+    "task_storm": (dict(policies=["block"], caps=[16], directs=(0, 1), reducers=(1, 1), mws=(0, 0), keep=0.0,
+                        ops={"tk": 10, "th": 6}, max_ops=4, max_threads=3), 0),
     "metrics": (dict(policies=ALLPOL, directs=(0, 2), reducers=(0, 2), effects=0.2, verdict=0.3,
                      ops={"d": 12, "gm": 3, "close": 1}, max_ops=5, mws=(0, 2), max_threads=3), 15),
 }
@@ -779,7 +783,7 @@ PROPERTY_FREE = {
     "C10": [("channeled", "", 200, 4000),
             # slow channeled consumers: full subscription queues at unsubscribe / stop
             ("channeled", "delay notify 2 0 300\ndelay notify 3 0 300", 150, 3000)],
-    "C11": [("effects", "", 200, 4000)],
+    "C11": [("effects", "", 200, 4000), ("task_storm", "", 150, 3000)],
     "C14": [("iterators", "", 100, 2000)],
     "C15": [("droppable", "", 200, 4000)],
     "C18": [("metrics", "", 200, 4000)],
@@ -930,7 +934,22 @@ def run_free(rep, scens, family, monitor):
                 continue
             rep.distinct.add((family, hash(tuple(ln for ln in h_all if ln.startswith("L ")))))
             bad, known = run_monitor(monitor, h_all, sc)
-            bad = list(bad) + hang_clause(h_all, sc)
+            hang = hang_clause(h_all, sc)
+            if hang and not bad:
+                # a watchdog expiry may be the machine, not the store: the scenario is run again on
+                # its own, and the hang is reported only if it shows again
+                again = False
+                for _ in range(3):
+                    _rc, _out, _err = vlib.run_tool([vlib.HARNESS, "free"], sc + "\n---\n", 120)
+                    _b = split_blocks(_out)
+                    if _b and hang_clause(_b[0], sc):
+                        again = True
+                        h_all = _b[0]
+                        break
+                if not again:
+                    rep.coverage["hangs_not_reproduced"] = rep.coverage.get("hangs_not_reproduced", 0) + 1
+                    hang = []
+            bad = list(bad) + hang
             for kf in known:
                 rep.known_hits[kf.split(" (")[0]] = rep.known_hits.get(kf.split(" (")[0], 0) + 1
             if bad:
